@@ -7,7 +7,7 @@ import glob, json, os, subprocess, sys
 
 REGRESS_CHECKS = {"C03-sorting-writer-stringency": "C03", "C04-entrez": "C04,C01", "C06-asserts": "C06", "C06-bool": "C06", "C06-separators": "C06",
                   "C07-truthiness": "C07", "C08-keys": "C08,C16", "C10-writer-contigs": "C10", "C11-overlap-contigs": "C11",
-                  "C14-duplicates": "C14", "C14-rootfilter": "C14", "C15-setitem": "C15", "C06-empty-first-record": "C06,C02", "C06-column-line-before-validation": "C06,C03", "C18-codec-names-with-scheme": "C18", "C18-abandoned-iteration-fds": "C18", "C18-merging-close-stops-early": "C18", "C17-line-reader-offset": "C17,C13", "C02-uncarriable-names": "C02", "C15-huge-index": "C15", "C18-codec-live-keys": "C18,C10", "C16-norestrictions": "C16",
+                  "C14-duplicates": "C14", "C14-rootfilter": "C14", "C15-setitem": "C15", "C06-empty-first-record": "C06,C02", "C06-column-line-before-validation": "C06,C03", "C18-codec-names-with-scheme": "C18", "C18-abandoned-iteration-fds": "C18", "C18-merging-close-stops-early": "C18", "C17-line-reader-offset": "C17,C13", "C02-uncarriable-names": "C02", "C15-huge-index": "C15", "C18-codec-live-keys": "C07,C18,C10", "C16-norestrictions": "C16",
                   "C17-colline": "C17", "C18-spill-close": "C18", "C20-class-identity": "C20", "C20-header-lists": "C20",
                   "C20-registry": "C20"}
 
